@@ -115,6 +115,17 @@ func (_this *Session) GetBuilderGeneratorForType(dstType reflect.Type) BuilderGe
 		return storedBuilderGenerator.(BuilderGenerator)
 	}
 
+	defer func() {
+		if r := recover(); r != nil {
+			// No builder can be made for this type. Don't leave the
+			// placeholder behind (it would wait forever), and let anyone
+			// already waiting on it fail the same way.
+			builderGenerator = func(*Context) Builder { panic(r) }
+			_this.builderGenerators.Delete(dstType)
+			wg.Done()
+			panic(r)
+		}
+	}()
 	builderGenerator = _this.defaultBuilderGeneratorForType(dstType)
 	wg.Done()
 	_this.builderGenerators.Store(dstType, builderGenerator)
